@@ -1,4 +1,4 @@
-"""C40 — Web API byte-range downloads follow RFC 7233 (web/filenode.py: FileDownloader)."""
+"""C40 — Web API byte-range downloads follow RFC 7233 (web/filenode.py: FileDownloader, FileNodeHandler)."""
 import os
 import re
 
@@ -8,34 +8,46 @@ DRIVER = "C40"
 GENERATED = []
 SOURCES = ["src/allmydata/web/filenode.py"]
 DESIGN_REF = "DESIGN.md §2 C40"
-TECHNIQUE = ("Lean 4 theorems over an executable model of FileDownloader.parse_range_header and the status/header/body decision of "
-             "FileDownloader.render; differential correspondence through the real resource (DummyRequest, real LiteralFileNode) and, "
-             "routed, through a real twisted.web Site + allmydata.web.root.Root + FileNodeHandler.render_GET/render_HEAD on the "
-             "in-process grid (literal, CHK, SDMF, MDMF; mutable files also after shorter/longer overwrites); an independent RFC 7233 oracle")
-LEVEL_TEXT = ("For every file and every header of the RFC 7233 single-range grammar the model's response is proved to be the RFC one "
-              "(206 exact / 416 / ignored) in Lean, for the code with fixes/C40-range-edges.diff applied (a `decide`d counterexample for "
-              "the code as it is); the model is tied to web/filenode.py by comparing status, Content-Range, Content-Length and body for "
-              "sizes 0..300 x all range forms around the boundaries x GET/HEAD.")
-LEVEL_NOTE = ("Lean kernel + standard axioms; model hand-written, tied by correspondence; headers are ASCII (Python's int()/strip() on "
-              "non-ASCII digits and white space are outside the model); Accept-Ranges / Content-Type / ETag are compared between HEAD and "
-              "GET on the implementation only (not modelled in Lean), as are the 304 answers to If-None-Match.")
-RULE = ("file sizes 0..300 (quick: a seeded sample that always contains 0,1,2,3,255,256,300; thorough: all, plus random larger ones) x "
+TECHNIQUE = ("Lean 4 theorems over executable models of FileDownloader.parse_range_header / FileDownloader.render (over an abstract "
+             "filenode.read) and of FileNodeHandler.render_GET / render_HEAD (ETag, If-None-Match); differential correspondence through "
+             "the real resource (DummyRequest, real LiteralFileNode) and, routed, through a real twisted.web Site + allmydata.web.root.Root "
+             "+ FileNodeHandler on the in-process grid (literal, CHK, SDMF, MDMF; mutable files also after shorter/longer overwrites; "
+             "multi-segment files); an independent RFC 7233 oracle")
+LEVEL_TEXT = ("Proved in Lean for the code as it is in /repo (fixes 5eb3fd9 range edges and aa58e25 HEAD ETag included), for every file and "
+              "every header of the RFC 7233 single-range grammar: closed_range_206 / open_range_206 / suffix_range_206 (206, exact bytes "
+              "clipped at EOF, matching Content-Range and Content-Length), beyond_end_416, unparsed_full / inverted_range_full / "
+              "unknown_unit_full / no_equals_full / suffix_zero_or_empty_full (ignored -> full 200), every_206_wellformed (any header string), "
+              "multi_range_first_only; head_is_get_without_body (render_HEAD = render_GET minus the body, ETag included), "
+              "if_none_match_hit_304 / if_none_match_miss_ignored / handler_is_downloader; render_over_any_slice_reader (the same answers "
+              "over any node whose read(offset,size) is a slice reader). `decide`d counterexamples for the code before 5eb3fd9. The models are "
+              "tied to web/filenode.py by comparing status, ETag, Content-Range, Content-Length and body, directly and through the routed path.")
+LEVEL_NOTE = ("Lean kernel + standard axioms (propext, Classical.choice, Quot.sound); models hand-written, tied by correspondence; headers are "
+              "ASCII (Python's int()/strip() on non-ASCII digits and white space are outside the model). That real CHK / SDMF / MDMF / LIT nodes "
+              "are slice readers (the hypothesis of render_over_any_slice_reader) is what C04 read_slice / read_slice_literal and C09 "
+              "read_range_slice / read_to_end prove for their node models (cited, not imported) and is tied here by the routed correspondence "
+              "only. Accept-Ranges and Content-Type are compared between HEAD and GET on the implementation only (monitor, not modelled). "
+              "Recorded readings: `bytes=-0` and a suffix range on an empty file are ignored (200); multi-range answers the first range.")
+RULE = ("a fixed corpus first (independent of VERIF_SEED; VERIF_CORPUS_ONLY=1 runs only it): one input per repaired defect and seeded "
+        "change, direct and routed (incl. a production-size 3-segment MDMF file and a 3-of-5 grid with CHK segment size 66); then "
+        "file sizes 0..300 (quick: a seeded sample that always contains 0,1,2,3,255,256,300; thorough: all, plus random larger ones) x "
         "single first-last / first- / -suffix ranges with every bound taken around 0 and the file size, multi-range sets, white-space and "
         "lenient-numeral variants, malformed headers, x GET/HEAD, through FileDownloader.render; a case is one request; non-trivial = "
         "the request carries a non-empty Range header; in addition every boundary family (first-last / first- / -suffix / multi / "
         "lenient / garbage around 0, size-1, size, size+1, size 0) is sent as GET and HEAD through the real Site/Root/FileNodeHandler "
         "for literal, CHK, SDMF and MDMF files (mutable: as created, overwritten shorter, longer, emptied), HEAD compared with GET "
-        "(status, Content-Range, Content-Length, Accept-Ranges, Content-Type, ETag, empty body) and with the model; conditional GET/HEAD "
-        "(If-None-Match with the file's ETag / * / a foreign tag, with and without Range) must both answer 304 resp. as without it; "
-        "multi-segment files (CHK with 64-byte segments, one production-size 3-segment MDMF file of 2*128KiB+4321 bytes in the fixed "
-        "corpus) get Range headers around every segment boundary, body == file slice and len(body) == Content-Length; a fixed 3-of-5 "
-        "grid with CHK segment size 66 (not a multiple of the AES block) with ranges starting 1..15 bytes after every segment "
-        "boundary; the random routed family draws k in {2,3,5} and small max_segment_size")
+        "(status, Content-Range, Content-Length, Accept-Ranges, Content-Type, ETag, empty body) and with the handler model (driver "
+        "command c40h); conditional GET/HEAD (If-None-Match with the file's ETag / * / a foreign tag / a multi-tag list / a near miss, "
+        "with and without Range) must both answer 304 resp. as without it; multi-segment files get Range headers around every segment "
+        "boundary and 1..15 bytes after it, body == file slice and len(body) == Content-Length; the random routed family draws k in "
+        "{2,3,5} and small max_segment_size")
 TRUSTED = ["lean/Tahoe/Web/Range.lean is a hand transcription of parse_range_header/render (str.split, str.strip and int() modelled for ASCII)",
+           "lean/Tahoe/Web/Handler.lean is a hand transcription of FileNodeHandler.render_GET (t='') / render_HEAD and twisted's "
+           "Request.setETag (If-None-Match, bytes.split())",
            "twisted.web.test.requesthelper.DummyRequest stands for the HTTP request (headers in, status/headers/body out)",
            "harness/grid.py (in-process grid, virtual clock) and the raw HTTP/1.0 feeding shim RoutedWeb in harness/props/c40.py"]
-ASSUMPTIONS = ["filenode.get_size() is the length of the bytes that filenode.read(consumer, first, size) delivers from",
-               "Range header values are ASCII"]
+ASSUMPTIONS = ["filenode.get_size() is the length of the bytes that filenode.read(consumer, first, size) slices (SliceReader; proved for "
+               "the node models by C04 / C09, tied for the real nodes by the routed correspondence)",
+               "Range and If-None-Match header values are ASCII"]
 
 SPEC = r"(?:[0-9]+-[0-9]*|-[0-9]+)"
 GRAMMAR = re.compile(r"bytes=(%s(?:[ \t]*,[ \t]*%s)*)" % (SPEC, SPEC))
